@@ -272,6 +272,15 @@ class C09(layfamily.Family):
     def project(self, pages, info):
         return [[b for b in p if b[0] == "data"] for p in pages]
 
+    def cross_extra(self, spec, info, ob):
+        """documents of the whole-encoder class (harness/crosscorr.py): everything the reader sees of every data row
+        except its text — fonts, sizes, styles, colours (resolved through the document's own colour table),
+        justification, indents, spacing, borders, vertical alignment, row height, cell boundaries"""
+        from .. import crosscorr
+
+        return [[pno, b[:2], crosscorr.row_format(ob["_doc"], r)] for pno, b, r in crosscorr.table_rows(ob)
+                if b[0] == "data"]
+
     def nontrivial(self, spec, info, ob):
         if len(ob["pages"]) >= 2 and ("matrix" in info["shapes"].values() or "pattern" in info["shapes"].values()):
             return [info["strategy"], info["nrow"], json.dumps(info["shapes"], sort_keys=True),
@@ -326,6 +335,9 @@ def run(res, build):
         for f in (o.get("fails") or [])[:1]:
             res.fail(case, f)
     model_grids(res, [o for o in outs if o["status"] == "ok"])
+    from .. import crosscorr
+
+    crosscorr.run_cross(fam, res)
     return common.finish(
         res, build, RULE, layfamily.TRUSTED_COMMON, layfamily.ASSUME_COMMON,
         explanation="C09_binding / C09_page_independent / C09_shapes / C09_kept_idx hold for every rectangular "
